@@ -141,43 +141,47 @@ def root_development(
 
         # Adjust expansion rate for presence of restrictive soil horizons
         if Zr > Crop.Zmin:
-            layeri = 1
-            l_idx = np.argwhere(prof.Layer == layeri).flatten()
-            Zsoil = prof.dz[l_idx].sum()
-            while (round(Zsoil, 2) <= Crop.Zmin) and (layeri < Soil_nLayer):
-                layeri = layeri + 1
+            # (the same limitation applies to yesterday's and to today's potential depth)
+            ZrLimited = []
+            for ZrIn in (ZrOld, Zr):
+                layeri = 1
                 l_idx = np.argwhere(prof.Layer == layeri).flatten()
-                Zsoil = Zsoil + prof.dz[l_idx].sum()
-
-            soil_layer_dz = prof.dz[l_idx].sum()
-            layer_comp = l_idx[0]
-            # soil_layer = prof.Layer[layeri]
-            ZrAdj = Crop.Zmin
-            ZrRemain = Zr - Crop.Zmin
-            deltaZ = Zsoil - Crop.Zmin
-            EndProf = False
-            while EndProf == False:
-                ZrTest = ZrAdj + (ZrRemain * (prof.Penetrability[layer_comp] / 100))
-                if (
-                    (layeri == Soil_nLayer)
-                    or (prof.Penetrability[layer_comp] == 0)
-                    or (ZrTest <= Zsoil)
-                ):
-                    ZrOUT = ZrTest
-                    EndProf = True
-                else:
-                    ZrAdj = Zsoil
-                    ZrRemain = ZrRemain - (deltaZ / (prof.Penetrability[layer_comp] / 100))
+                Zsoil = prof.dz[l_idx].sum()
+                while (round(Zsoil, 2) <= Crop.Zmin) and (layeri < Soil_nLayer):
                     layeri = layeri + 1
                     l_idx = np.argwhere(prof.Layer == layeri).flatten()
-                    layer_comp = l_idx[0]
-                    soil_layer_dz = prof.dz[l_idx].sum()
-                    Zsoil = Zsoil + soil_layer_dz
-                    deltaZ = soil_layer_dz
+                    Zsoil = Zsoil + prof.dz[l_idx].sum()
+
+                soil_layer_dz = prof.dz[l_idx].sum()
+                layer_comp = l_idx[0]
+                # soil_layer = prof.Layer[layeri]
+                ZrAdj = Crop.Zmin
+                ZrRemain = ZrIn - Crop.Zmin
+                deltaZ = Zsoil - Crop.Zmin
+                EndProf = False
+                while EndProf == False:
+                    ZrTest = ZrAdj + (ZrRemain * (prof.Penetrability[layer_comp] / 100))
+                    if (
+                        (layeri == Soil_nLayer)
+                        or (prof.Penetrability[layer_comp] == 0)
+                        or (ZrTest <= Zsoil)
+                    ):
+                        ZrOUT = ZrTest
+                        EndProf = True
+                    else:
+                        ZrAdj = Zsoil
+                        ZrRemain = ZrRemain - (deltaZ / (prof.Penetrability[layer_comp] / 100))
+                        layeri = layeri + 1
+                        l_idx = np.argwhere(prof.Layer == layeri).flatten()
+                        layer_comp = l_idx[0]
+                        soil_layer_dz = prof.dz[l_idx].sum()
+                        Zsoil = Zsoil + soil_layer_dz
+                        deltaZ = soil_layer_dz
+                ZrLimited.append(ZrOUT)
 
             # Correct Zr and dZr for effects of restrictive horizons
-            Zr = ZrOUT
-            dZr = Zr - ZrOld
+            ZrOldLimited, Zr = ZrLimited
+            dZr = Zr - ZrOldLimited
 
         # Adjust rate of expansion for any stomatal water stress
         if NewCond_TrRatio < 0.9999:
